@@ -36,6 +36,23 @@ CHECKS["C18"] = dict(
    design_ref="5/C18",
    note="Trusted: Endpoint.tla as the documented behaviour; repeated options, exact key text and registry layout are observations, not verdicts (statement silent).")
 
+CODEC_NOTE = "Trusted: TarsSchema.tla (reader semantics, Allowed relation), lib/idl2schema.py, TLC, the harness' own wire splitter/builder (its products are judged by the reference). Sampled over values; exhaustive over the mutation sites of each sampled encoding up to a cap."
+CHECKS["C04"] = dict(engine="tlc+codecdrive",
+   technique="TLA+ reference reader (TarsSchema.tla, lenient mode) + TLC theorems UnknownSkipped/AbsentRules; batch oracle (Oracle_Dec): real ReadFrom on encodings extended with hand-built unknown fields / with fields removed, into fresh and reused structs, judged by TLC",
+   category="model_checking",
+   text="For every struct type: valid encodings from the real encoder get 1-3 well-formed unknown fields (all 13 wire types, nested, extended tags) merged at their ordered position, or lose one field; the real decoder's result (fresh and reused target) must equal what the TLA+ reference reader computes from the same bytes (same value, absent optional -> IDL default, absent required -> error).",
+   design_ref="5/C04", note=CODEC_NOTE)
+CHECKS["C06"] = dict(engine="tlc+codecdrive",
+   technique="TLA+ reference reader + Allowed relation (error, or exactly the value of the complete fields present), theorem Truncation checked by TLC; batch oracle (Oracle_Dec) over every prefix / length inflation / wire-type substitution of real encodings",
+   category="model_checking",
+   text="For valid encodings of every struct type: every proper prefix (all of them up to 48 bytes), each embedded length (string1/4, list, map, simple list) replaced by n+1, remaining+1, 2^31-1, -1, -2^31, n+1000, n-1, and each top-level field replaced by a well-formed field of each other wire type; TLC decides for each mutant whether the real decoder's answer is in Allowed.",
+   design_ref="5/C06", note=CODEC_NOTE)
+CHECKS["C05"] = dict(engine="tlc+codecdrive",
+   technique="TLA+ reference decoder as total function with the reject-before-allocate rule; batch oracle (Oracle_Dec: class agreement + allocation bound) over exhaustive small strings on a reduced alphabet, mutants and random bytes; crash-isolated worker under an address-space limit observes panics, fatal errors, hangs, allocation",
+   category="model_checking",
+   text="Every byte string up to length 2 (quick) / 3 (thorough) over a 48-symbol alphabet (heads of all wire types at tags 0/1/15 + length bytes) x 4 struct types, random strings over it, mutants of valid encodings of all struct types with hostile lengths and substituted wire types, random bytes, and nesting patterns scaled to 200 k (quick) / 10 M (thorough) levels are decoded by the real ReadFrom / tup.Decode in a worker process; TLC judges ok/err class and the allocation bound, the harness records panic / fatal error / hang.",
+   design_ref="5/C05", note=CODEC_NOTE + " Network receive paths (TCP/UDP server, client) are exercised by the C10/C07 harnesses; see DESIGN.md.")
+
 PENDING = {}
 
 def main():
